@@ -153,16 +153,22 @@ def contracts():
                   name='utils.convert_output_data/set/any-member',
                   params=dict(obj=fset1(), **base), ensures=[],
                   serves=('C10-probe',))
-            c(U + 'convert_output_data',
-              name='utils.convert_output_data/set/' + tag,
-              params=dict(obj=fset1(), **base),
-              requires=[] if sl else [
-                  'ufn("py.hashable", %s, ret="Bool")' % (REC % 'E0')],
-              ensures=['type(result) is %s' % ('list' if sl else 'set'),
-                       'len(result) == 1',
-                       'len([e for e in calls if e[0] == "limit_func"]) == 1',
-                       'all([x == %s for x in result])' % (REC % 'E0')],
-              serves=('C10', 'C08'))
+            # a frozenset (converted input) and a mutable host set (input
+            # conversion off): both are rebuilt - the result never IS the
+            # object that came in (C09: no aliasing of host data)
+            for skind, mk in (('set', fset1()), ('mutable-set', fset1(set))):
+                c(U + 'convert_output_data',
+                  name='utils.convert_output_data/%s/%s' % (skind, tag),
+                  params=dict(obj=mk, **base),
+                  requires=[] if sl else [
+                      'ufn("py.hashable", %s, ret="Bool")' % (REC % 'E0')],
+                  ensures=['type(result) is %s' % ('list' if sl else 'set'),
+                           'result is not obj',
+                           'len(result) == 1',
+                           'len([e for e in calls if e[0] == "limit_func"])'
+                           ' == 1',
+                           'all([x == %s for x in result])' % (REC % 'E0')],
+                  serves=('C10', 'C08', 'C09'))
             c(U + 'convert_output_data',
               name='utils.convert_output_data/iterator/' + tag,
               params=dict(obj=TIter(TVal), **base),
@@ -235,10 +241,13 @@ class dict2:
 class fset1:
     is_factory = True
 
+    def __init__(self, kind=frozenset):
+        self.kind = kind
+
     def __call__(self, name, path):
         e = TVal.fresh('E0')
         path.ghost.update(E0=e)
-        return frozenset([e])
+        return self.kind([e])
 
 
 class list_of:
